@@ -5,6 +5,7 @@ go 1.21
 require (
 	github.com/google/uuid v1.3.0
 	github.com/massnetorg/mass-core v0.0.0-20210816132538-be1c10e6c62a
+	google.golang.org/grpc v1.26.0
 	massnet.org/mass v0.0.0
 )
 
@@ -34,7 +35,6 @@ require (
 	golang.org/x/term v0.0.0-20201126162022-7de9c90e9dd1 // indirect
 	golang.org/x/text v0.3.3 // indirect
 	google.golang.org/genproto v0.0.0-20200108215221-bd8f9a0ef82f // indirect
-	google.golang.org/grpc v1.26.0 // indirect
 	google.golang.org/protobuf v1.23.0 // indirect
 	gopkg.in/fatih/set.v0 v0.2.1 // indirect
 	gopkg.in/karalabe/cookiejar.v2 v2.0.0-20150724131613-8dcd6a7f4951 // indirect
